@@ -496,4 +496,148 @@ theorem renewal_exact (r : Roas) (hr : r.WF) (force : Bool) (thr : Nat)
           · left; simp only [r']; rw [hs, h]; rfl
           · right; simp only [r']; rw [ha, h]; rfl }
 
+/-! ### ASPA objects and router certificates -/
+
+theorem routers_exact (certs : RouterCerts) (hasAsn : Nat → Bool) (defs : List RouterKey)
+    (mint : RouterKey → ObjMeta) (hk : (keys certs).Nodup) (hd : defs.Nodup) :
+    let certs' := routerApply certs (routerCreateUpdates certs hasAsn defs mint)
+    (keys certs').Nodup ∧ ∀ k, k ∈ keys certs' ↔ (k ∈ defs ∧ hasAsn k.asn = true) := by
+  intro certs'
+  have hU : keys ((defs.filter fun k => !has certs k && hasAsn k.asn).map fun k => (k, mint k)) =
+      defs.filter fun k => !has certs k && hasAsn k.asn := by
+    simp [keys, List.map_map, Function.comp_def]
+  constructor
+  · simp only [certs', routerApply, routerCreateUpdates, RouterPlan.sign, routerPlan]
+    exact nodup_keys_eraseAll (nodup_keys_putAll hk (by rw [hU]; exact nodup_filter hd _)) _
+  · intro k
+    simp only [certs', routerApply, routerCreateUpdates, RouterPlan.sign, routerPlan]
+    rw [keys_eraseAll, List.mem_filter, mem_keys_putAll, hU]
+    simp only [List.mem_filter, Bool.and_eq_true, decide_eq_true_eq, Bool.or_eq_true,
+      Bool.not_eq_eq_eq_not, Bool.not_true, decide_eq_false_iff_not, not_and, not_or, Decidable.not_not]
+    constructor
+    · rintro ⟨h1 | h1, h2⟩
+      · have := h2 h1
+        exact ⟨this.1, by cases h : hasAsn k.asn <;> simp_all⟩
+      · exact ⟨h1.1, h1.2.2⟩
+    · rintro ⟨h1, h2⟩
+      refine ⟨?_, fun _ => ⟨h1, by simp [h2]⟩⟩
+      by_cases hc : k ∈ keys certs
+      · exact Or.inl hc
+      · refine Or.inr ⟨h1, ?_, h2⟩
+        cases hh : has certs k
+        · rfl
+        · exact absurd (has_iff.mp hh) hc
+
+theorem aspaDef_unique (defs : List AspaDefn) (hd : (defs.map (·.customer)).Nodup) :
+    ∀ d d', d ∈ defs → d' ∈ defs → d.customer = d'.customer → d = d' := by
+  intro d d' h1 h2 hc
+  induction defs with
+  | nil => cases h1
+  | cons a l ih =>
+    simp only [List.map_cons, List.nodup_cons] at hd
+    rcases List.mem_cons.mp h1 with rfl | h1' <;> rcases List.mem_cons.mp h2 with rfl | h2'
+    · rfl
+    · exact absurd (List.mem_map.mpr ⟨d', h2', hc.symm⟩) hd.1
+    · exact absurd (List.mem_map.mpr ⟨d, h1', hc⟩) hd.1
+    · exact ih hd.2 h1' h2'
+
+theorem aspas_exact' (objs : AspaObjects) (hasAsn : Nat → Bool) (defs : List AspaDefn)
+    (mint : AspaDefn → ObjMeta) (hw : AspaWF objs) (hd : (defs.map (·.customer)).Nodup) :
+    let objs' := aspaApply objs (aspaCreateUpdates objs hasAsn defs mint)
+    AspaWF objs' ∧ ∀ d, (∃ e ∈ objs', e.2.defn = d) ↔ (d ∈ defs ∧ hasAsn d.customer = true) := by
+  intro objs'
+  obtain ⟨hk, hkey⟩ := hw
+  -- the update list
+  let upd := defs.filter fun d =>
+      hasAsn d.customer && (match get? objs d.customer with
+        | some ex => decide (ex.defn ≠ d)
+        | none => true)
+  have hobjs' : objs' = eraseAll (putAll objs (upd.map fun d => (d.customer, (⟨d, mint d⟩ : AspaInfo))))
+      ((keys objs).filter fun c => !(decide (c ∈ defs.map (·.customer))) || !hasAsn c) := by
+    simp only [objs', aspaApply, aspaCreateUpdates, AspaPlan.sign, aspaPlan, upd, List.map_map, Function.comp_def]
+    rfl
+  have hU : keys (upd.map fun d => (d.customer, (⟨d, mint d⟩ : AspaInfo))) = upd.map (·.customer) := by
+    simp [keys, List.map_map, Function.comp_def]
+  have hUn : (upd.map (·.customer)).Nodup :=
+    List.Nodup.sublist (List.Sublist.map _ List.filter_sublist) hd
+  have defUnique := aspaDef_unique defs hd
+  have notRemoved : ∀ c, c ∈ defs.map (·.customer) → hasAsn c = true →
+      c ∉ (keys objs).filter fun c => !(decide (c ∈ defs.map (·.customer))) || !hasAsn c := by
+    intro c h1 h2 h
+    have := (List.mem_filter.mp h).2
+    simp [h1, h2] at this
+  refine ⟨⟨?_, ?_⟩, ?_⟩
+  · rw [hobjs']
+    exact nodup_keys_eraseAll (nodup_keys_putAll hk (by rw [hU]; exact hUn)) _
+  · intro e he
+    rw [hobjs', mem_eraseAll, mem_putAll] at he
+    rcases he.1 with ⟨h1, _⟩ | h1
+    · exact hkey e h1
+    · obtain ⟨d, _, rfl⟩ := List.mem_map.mp h1
+      rfl
+  · intro d
+    constructor
+    · rintro ⟨e, he, hed⟩
+      rw [hobjs', mem_eraseAll, mem_putAll] at he
+      obtain ⟨h1, h2⟩ := he
+      rcases h1 with ⟨hin, hnot⟩ | hnew
+      · -- an old entry that stays
+        have hkeep : e.1 ∈ defs.map (·.customer) ∧ hasAsn e.1 = true := by
+          by_cases hc : e.1 ∈ defs.map (·.customer)
+          · refine ⟨hc, ?_⟩
+            cases hh : hasAsn e.1
+            · exact absurd (List.mem_filter.mpr ⟨mem_keys_of_mem hin, by simp [hh]⟩) h2
+            · rfl
+          · exact absurd (List.mem_filter.mpr ⟨mem_keys_of_mem hin, by simp [hc]⟩) h2
+        obtain ⟨d', hd', hdc⟩ := List.mem_map.mp hkeep.1
+        have hg : get? objs d'.customer = some e.2 := get?_of_mem hk (by rw [hdc]; cases e; exact hin)
+        have hnu : d' ∉ upd := by
+          intro hu
+          rw [hU] at hnot
+          exact hnot (List.mem_map.mpr ⟨d', hu, hdc⟩)
+        have : e.2.defn = d' := by
+          by_cases heq : e.2.defn = d'
+          · exact heq
+          · exfalso; apply hnu
+            simp only [upd, List.mem_filter, Bool.and_eq_true]
+            refine ⟨hd', ?_, ?_⟩
+            · rw [hdc]; exact hkeep.2
+            · simp [hg, heq]
+        rw [← hed, this]
+        exact ⟨hd', by rw [hdc]; exact hkeep.2⟩
+      · obtain ⟨d', hd', rfl⟩ := List.mem_map.mp hnew
+        simp only at hed
+        subst hed
+        have := List.mem_filter.mp hd'
+        simp only [Bool.and_eq_true] at this
+        exact ⟨this.1, this.2.1⟩
+    · rintro ⟨hd1, hd2⟩
+      have hcm : d.customer ∈ defs.map (·.customer) := List.mem_map.mpr ⟨d, hd1, rfl⟩
+      by_cases hu : d ∈ upd
+      · refine ⟨(d.customer, ⟨d, mint d⟩), ?_, rfl⟩
+        rw [hobjs', mem_eraseAll, mem_putAll]
+        exact ⟨Or.inr (List.mem_map.mpr ⟨d, hu, rfl⟩), notRemoved _ hcm hd2⟩
+      · -- not in the update list: an object with this very definition exists
+        cases hg : get? objs d.customer with
+        | none =>
+          exfalso; apply hu
+          simp only [upd, List.mem_filter, Bool.and_eq_true]
+          exact ⟨hd1, hd2, by simp [hg]⟩
+        | some ex =>
+          have hexd : ex.defn = d := by
+            by_cases heq : ex.defn = d
+            · exact heq
+            · exfalso; apply hu
+              simp only [upd, List.mem_filter, Bool.and_eq_true]
+              exact ⟨hd1, hd2, by simp [hg, heq]⟩
+          refine ⟨(d.customer, ex), ?_, hexd⟩
+          rw [hobjs', mem_eraseAll, mem_putAll]
+          refine ⟨Or.inl ⟨get?_some_mem' hg, ?_⟩, notRemoved _ hcm hd2⟩
+          rw [hU]
+          intro hc
+          obtain ⟨d', hd', hdc⟩ := List.mem_map.mp hc
+          have := defUnique d' d (List.mem_filter.mp hd').1 hd1 hdc
+          subst this
+          exact hu hd'
+
 end KM.Ca.Pub
